@@ -53,6 +53,35 @@ def _cases(rng, tier):
     return out
 
 
+def block_cases(ctx, rng, tier):
+    """polygons that swallow whole coarser cells: a square around a cell of resolution r-2 (or r-3), filled at r, so the
+    compact iterator returns coarse interior cells that are expanded into many output slots (capacity rule inside an
+    expansion); hexagon and pentagon parents"""
+    out = []
+    n = 6 if tier == "quick" else 40
+    for k in range(n):
+        res = rng.randrange(3, 13)
+        up = rng.choice([2, 2, 3])
+        if res - up < 0:
+            continue
+        if k % 3 == 2:
+            pc = gen.mkcell(res - up, rng.choice(gen.PENT), [0] * (res - up))
+        else:
+            pc = gen.parent(gen.rand_cell(rng, res=res), res - up)
+        a = ctx.c([f"c2ll {gen.hx(pc)}"], tag="block")[0]
+        if not ok(a):
+            continue
+        la, ln = bits2f(a.split()[1]), bits2f(a.split()[2])
+        if abs(la) > 1.3:
+            continue
+        r_ = 1.5 * EDGE[res - up]
+        c_ = math.cos(la)
+        loops = [[(la + r_, gen.norm_lng(ln - r_ / c_)), (la + r_, gen.norm_lng(ln + r_ / c_)),
+                  (la - r_, gen.norm_lng(ln + r_ / c_)), (la - r_, gen.norm_lng(ln - r_ / c_))]]
+        out.append((loops, la, ln, 1.6 * r_ / min(1.0, c_ + 0.2), res, "block"))
+    return out
+
+
 def incell_cases(ctx, rng, tier):
     """polygons lying entirely inside one cell, off-centre (a slab between two adjacent centre-to-vertex rays), at all
     latitudes including near the poles, and thin east-west / north-south strips inside a cell"""
@@ -231,7 +260,7 @@ def evaluate(ctx, rng, tier, focus, budget, broken):
     nprims = [0]
     ntrav = [0]
     skipped_big = [0]
-    for (loops, lat, lng, radius, res, kind) in _cases(rng, tier) + incell_cases(ctx, rng, tier) + micro_cases(ctx, rng, tier) + polar_cases(rng, tier):
+    for (loops, lat, lng, radius, res, kind) in _cases(rng, tier) + block_cases(ctx, rng, tier) + incell_cases(ctx, rng, tier) + micro_cases(ctx, rng, tier) + polar_cases(rng, tier):
         ps = gen.poly_str(loops)
         cand = candidates(ctx, lat, lng, radius, res, None)
         if cand is None or len(cand) > 4000:
@@ -358,9 +387,16 @@ def evaluate(ctx, rng, tier, focus, budget, broken):
                                           [ops[m]], f"{len(exp_cells)} cells", mout[4 + m][:300], key=f"expansion:{m}:{kind}:{res}"))
         # capacity below the count -> E_MEMORY_BOUNDS ; invalid flags -> E_OPTION_INVALID
         ops2, exp2 = [], []
-        for m in (0, 2):
-            if len(sets[m]) > 0:
-                ops2.append(f"polyfillx {res} {m} {max(len(sets[m]) - 1, -1) if len(sets[m]) > 1 else -1} {ps}"); exp2.append("err 14")
+        for m in (0, 1, 2, 3):
+            n_ = len(sets[m])
+            if n_ > 0:
+                # every kind of too-small capacity: one short, a few short (inside the expansion of a coarse interior
+                # cell), half, one slot, none; the driver's buffer has exactly that many slots (ASan-guarded)
+                caps = {n_ - 1, n_ - 2, n_ - 3, n_ - 6, n_ - 7, n_ - 8, n_ // 2, n_ // 7, 1, 0, rng.randrange(0, n_)}
+                if m in (1, 3):
+                    caps = {n_ - 1, n_ - 5, rng.randrange(0, n_)}
+                for c_ in sorted(c for c in caps if 0 <= c < n_):
+                    ops2.append(f"polyfillx {res} {m} {c_ if c_ > 0 else -1} {ps}"); exp2.append("err 14")
         for f in (4, 5, 16, 2 ** 31):
             ops2.append(f"polyfillx {res} {f} 0 {ps}"); exp2.append("err 15")
             ops2.append(f"maxpolyfillx {res} {f} {ps}"); exp2.append("err 15")
